@@ -179,7 +179,9 @@ CLAIMED = {
     ),
     "C06": dict(
         text="Proved in Lean: the exporter's depth-first module traversal lists every module exactly once and after everything it "
-        "instantiates, for any module DAG, sharing and list of tops (export_order); connection targets produced by resolver + "
+        "instantiates, for any module DAG, sharing and list of tops (export_order); with module names, and each name reserved before the "
+        "dependencies are exported, a returned package never holds two modules of one name and a clash anywhere below the tops raises "
+        "(exported_names_unique; refusal and module order compared with the real exporter on random DAGs with clashing names); connection targets produced by resolver + "
         "exporter (fragment F1) carry exactly the connection's width and stay inside their signals (target_width, C03 "
         "exported_bits_in_range); for whole modules (export_module_wf, over the model of export_module / export_port / export_instance): an "
         "elaborated module in the state EWF — one object per name, no zero-width signal, directed ports, every instance of a defined target with "
